@@ -151,6 +151,7 @@ def run(ctx):
     from . import c02_frame
     c02_frame.run_header_structs(ctx)
     c02_frame.run_opcode_width(ctx)
+    c02_frame.run_expect_gate(ctx)
     # enum domains differ between login protocol versions: the protocol-parameterised readers must decode version K with
     # version K's own codec, or an enumerator that only a later version declares is accepted (rule shared with C14)
     from . import c14
